@@ -121,7 +121,8 @@ def run(ctx: Ctx):
         for period in range(1, 5 if ctx.thorough else 4):
             k += 1
             sc = scen.gen(ctx.seed * 100000 + 19000 + k, nsteps=ns, period=period, rev=False, kills=False, age=False,
-                          numrec=[0, 2, 1][k % 3], layout=["sparse", "dense"][k % 2] if k % 3 == 0 else "sparse", speed=0.25)
+                          numrec=[0, 2, 1][k % 3], layout=["sparse", "dense"][k % 2] if k % 3 == 0 else "sparse", speed=0.25,
+                          first_release=(2 if (k % 4 == 1 and ns > 3) else 0))   # some runs start with an empty state
             jobs.append(dict(sc=sc, warm=(sc["numrec"] > 0 and sc["layout"] == "sparse")))
     res = pmap(run_case, jobs, chunksize=1)
     want = driver([scen.request(dict(j["sc"], kill={}, age=False)) for j in jobs])
